@@ -160,17 +160,71 @@ pub fn ext_identc<'a>(s: &'a str, ctx: &mut Ctx) -> Result<(&'a str, usize), &'s
 /// Like `ext_ident`, but the function itself runs a (simulated) nested *traced* parse on the same thread before it
 /// answers - what an extern rule does that parses an embedded sub-language with another peginator grammar while
 /// tracing is on.  Re-entrancy must not disturb the outer parse or its trace.
+/// A tiny hand-written parser type: what matters is that it is driven through the library's own `PegParser::parse_with_trace`
+/// (entry point, tracer construction) from inside a user function of another parse.
+struct Inner;
+impl peginator::PegParserAdvanced<()> for Inner {
+    fn parse_advanced<TT: peginator::ParseTracer>(
+        s: &str,
+        settings: &peginator::ParseSettings,
+        _ctx: (),
+    ) -> Result<Self, peginator::ParseError> {
+        use peginator::{ParseOk, ParseResult, ParseState};
+        let mut tracer = TT::new();
+        let st = ParseState::new(s, settings);
+        tracer.print_trace_start(&st, "Inner");
+        tracer.print_trace_start(&st, "InnerChild");
+        let r1: ParseResult<()> = Ok(ParseOk { result: (), state: st.clone() });
+        tracer.print_trace_result(&r1);
+        tracer.print_trace_result(&r1);
+        Ok(Inner)
+    }
+}
+
+fn thread_cpu_and_state(tid: &str) -> Option<(char, u64)> {
+    let st = std::fs::read_to_string(format!("/proc/self/task/{tid}/stat")).ok()?;
+    let rest = &st[st.rfind(')')? + 2..];
+    let f: Vec<&str> = rest.split(' ').collect();
+    Some((f[0].chars().next()?, f[11].parse::<u64>().ok()? + f[12].parse::<u64>().ok()?))
+}
+
 fn nested_core(s: &str) -> Result<(&str, usize), &'static str> {
-    use peginator::{IndentedTracer, ParseOk, ParseResult, ParseSettings, ParseState, ParseTracer};
-    let settings = ParseSettings::default();
-    let inner_input = "inner";
-    let mut tracer = IndentedTracer::new();
-    let st = ParseState::new(inner_input, &settings);
-    tracer.print_trace_start(&st, "Inner");
-    tracer.print_trace_start(&st, "InnerChild");
-    let r1: ParseResult<()> = Ok(ParseOk { result: (), state: st.clone() });
-    tracer.print_trace_result(&r1);
-    tracer.print_trace_result(&r1);
+    // a traced parse started from inside a user function (re-entrant use of the library).  It runs on a helper thread
+    // while this thread waits for it, so that a nested parse that can never finish (it waits for something only the
+    // outer parse can release) is *observed* instead of hanging the harness: if the helper has not answered after 3 s
+    // and is asleep with no CPU time consumed between two looks, it is blocked.
+    use peginator::PegParser;
+    use std::sync::mpsc;
+    let (tx, rx) = mpsc::channel::<Result<String, bool>>();
+    std::thread::spawn(move || {
+        let tid = std::fs::read_link("/proc/thread-self")
+            .ok()
+            .and_then(|p| p.file_name().map(|x| x.to_string_lossy().to_string()))
+            .unwrap_or_default();
+        let _ = tx.send(Ok(tid));
+        let ok = <Inner as PegParser>::parse_with_trace("inner").is_ok();
+        let _ = tx.send(Err(ok));
+    });
+    let tid = match rx.recv() {
+        Ok(Ok(t)) => t,
+        _ => String::new(),
+    };
+    match rx.recv_timeout(std::time::Duration::from_secs(3)) {
+        Ok(_) => {}
+        Err(_) => {
+            let a = thread_cpu_and_state(&tid);
+            std::thread::sleep(std::time::Duration::from_millis(400));
+            let b = thread_cpu_and_state(&tid);
+            if let (Some((sa, ca)), Some((sb, cb))) = (a, b) {
+                if sa == 'S' && sb == 'S' && ca == cb {
+                    crate::logline(|l| l.push_str("D nested-traced-parse-blocked"));
+                    panic!("a traced parse started inside a user function of a running parse is blocked (asleep, no CPU progress): the outer parse holds something it needs");
+                }
+            }
+            // busy machine: keep waiting, the verdict stays with the outer watchdog
+            let _ = rx.recv();
+        }
+    }
     ident_core(s)
 }
 pub fn ext_nested(s: &str) -> Result<(&str, usize), &'static str> {
